@@ -147,6 +147,83 @@ pub fn test_sk(ix: &CorpusIndex, c: &SkCase, stats: &Stats, strict: bool) -> Cas
     Ok(())
 }
 
+/// One generated CFF / CFF2 font: the common skrifa driver plus a hinted-draw probe of every glyph (PostScript hinter).
+/// Non-trivial: a hinted draw of a glyph declaring >= 1 stem hint got past argument validation and returned Ok.
+pub fn test_cff(c: &crate::cffgen::CffCase, stats: &Stats, strict: bool) -> CaseResult {
+    use crate::cffgen::{self, stem_class};
+    let bytes = cffgen::build(&c.font);
+    // a sibling with another subfont layout / other Private DICTs for the cross-font hinting-instance modes
+    let other = (c.args.inst_mode % 3 != 0).then(|| cffgen::build(&cffgen::twist(&c.font)));
+    let (o, p) = match guard::catch(|| (skdrive::drive_file(&bytes, other.as_deref(), &c.args), cffgen::probe(&bytes, &c.args))) {
+        Ok(r) => r,
+        Err(p) => {
+            if strict && !p.is_overflow_or_assert() {
+                stats.class(&format!("non_overflow_panic_ignored(strict):{}", guard::rel_file(&p.file)));
+                return Ok(());
+            }
+            return Err(Fail::from_panic(&p));
+        }
+    };
+    stats.class(if c.font.cff2 { "table=CFF2" } else if c.font.cid { "table=CFF(cid)" } else { "table=CFF" });
+    if o.opened {
+        stats.class("opened");
+    }
+    stats.class_n("draws", o.draws);
+    stats.class_n("draws_ok", o.draws_ok);
+    stats.class_n("hinting_instances", o.hint_instances);
+    stats.class_n("probe_instances(of 2)", p.instances as u64);
+    stats.class_n("probe_unhinted_ok", p.unhinted_ok as u64);
+    stats.class_n("probe_unhinted_err", p.unhinted_err as u64);
+    for e in &p.errors {
+        stats.class(&format!("hinted_err:{e}"));
+    }
+    let chain = c.font.privs.iter().map(|p| p.chain).max().unwrap_or(0);
+    stats.class(&format!("subr_chain={}", match chain { 0 => "0", 1..=8 => "1-8", 9 => "9", 10 => "10", 11 => "11", _ => "12+" }));
+    if c.font.pad_lsubrs >= 1240 || c.font.pad_gsubrs >= 1240 {
+        stats.class("subr_bias>107");
+    }
+    let mut nontrivial = false;
+    for (g, gl) in c.font.glyphs.iter().enumerate() {
+        let f = cffgen::facts(gl);
+        let (ok, err) = p.hinted.get(g).copied().unwrap_or((0, 0));
+        stats.class(&format!("glyph hstems={}", stem_class(f.hstems)));
+        if f.stems != f.hstems {
+            stats.class(&format!("glyph allstems={}", stem_class(f.stems)));
+        }
+        if f.hstems > 0 {
+            stats.class(match f.ghosts { 0 => "glyph ghosts=0", x if x % 2 == 1 => "glyph ghosts=odd", _ => "glyph ghosts=even" });
+        }
+        if f.hintmasks > 0 {
+            stats.class("glyph hintmask");
+        }
+        if f.cntrmasks > 0 {
+            stats.class("glyph cntrmask");
+        }
+        if f.wrong_mask_len {
+            stats.class("glyph mask_len_wrong");
+        }
+        if f.calls > 0 {
+            stats.class("glyph calls_subr");
+        }
+        if f.max_fill >= 48 {
+            stats.class(if f.max_fill >= 513 { "glyph stack>=513" } else { "glyph stack>=48" });
+        }
+        stats.class_n(&format!("hinted_ok hstems={}", stem_class(f.hstems)), ok as u64);
+        stats.class_n(&format!("hinted_err hstems={}", stem_class(f.hstems)), err as u64);
+        if f.hstems > 0 && ok > 0 {
+            nontrivial = true;
+        }
+    }
+    if nontrivial {
+        let h = hash_json(c);
+        stats.nontrivial(h);
+        if stats.want_sample() && h % 512 == 0 {
+            stats.sample(serde_json::json!({"cff_case": c, "draws": o.draws, "draws_ok": o.draws_ok}));
+        }
+    }
+    Ok(())
+}
+
 // ---------------------------------------------------------------------------------------------
 
 fn tag4() -> impl Strategy<Value = [u8; 4]> {
@@ -287,6 +364,10 @@ pub fn stages(ctx: &Ctx, strict: bool) {
             })
     };
     ctx.prop_stage("skrifa-bytecode", Isolation::Procs, ctx.n(40_000, 400_000), bstrat, |c, s| test_sk(&ix, c, s, strict));
+    // (2b') structurally valid CFF / CFF2 fonts by construction with generated Type 2 charstring programs (stem counts
+    // around the PostScript hinter's capacity limits, masks, subr chains, operand stacks, blend), see cffgen.rs
+    let cstrat = || (crate::cffgen::strategy(), skargs_strategy()).prop_map(|(font, args)| crate::cffgen::CffCase { font, args });
+    ctx.prop_stage("cff-generated", Isolation::Procs, ctx.n(60_000, 600_000), cstrat, |c, s| test_cff(c, s, strict));
     // (2c) structurally valid fonts with hostile values (extreme coordinates / metrics / upem / transforms, several
     // limit-valued gvar tuples active at once, generated prep), driven like any other font
     let hstrat = || (crate::hostile::strategy(), skargs_strategy()).prop_map(|(font, args)| HostileCase { font, args });
